@@ -12,6 +12,8 @@ VERIF = os.path.dirname(HARNESS)
 LEAN = os.path.join(VERIF, "lean")
 REPO = os.path.abspath(os.environ.get("VERIF_REPO", "/repo"))
 EVIDENCE = os.path.join(VERIF, "evidence")
+if os.environ.get("VERIF_EVIDENCE_DIR"):  # development runs against a changed tree keep their evidence apart
+    EVIDENCE = os.environ["VERIF_EVIDENCE_DIR"]
 REPLAYS = os.path.join(VERIF, "replays")
 CORPUS = os.path.join(VERIF, "corpus")
 ALLOWED_AXIOMS = {"propext", "Classical.choice", "Quot.sound"}
